@@ -3,6 +3,14 @@ use vcommon::Args;
 
 mod c01;
 mod c02;
+mod c03;
+#[path = "../../mon_leaf/src/fri_attacks.rs"]
+#[allow(dead_code)]
+mod fri_attacks;
+#[path = "../../mon_leaf/src/frih.rs"]
+#[allow(dead_code)]
+mod frih;
+mod replay;
 mod c05;
 mod pool;
 mod c06;
@@ -19,6 +27,7 @@ fn main() {
     match args.stage.as_str() {
         "c01" => c01::run(&args),
         "c02" => c02::run(&args),
+        "c03" => c03::run(&args),
         "c05" => c05::run(&args),
         "c06" => c06::run(&args),
         "c07" => c07::run(&args),
